@@ -381,4 +381,65 @@ theorem reads_of_ssubst : ∀ (f : Nat) (t : Str) (toks : List Tok), tokLoop f t
           have := ih _ toks' ht (fun tk htk => hnw tk (by simp [htk])) hvt vals p' hsl hp'
           exact Reads.const _ this
 
+/-! ### the trie's answer as a filling of the returned template -/
+
+/-- what the trie returns for "METHOD rem", read as the spec reads it: the returned key has the request's method and its
+    template, filled with the returned (non-empty, slash-free) values, is `rem` — for keys and remainders without trailing
+    slash, without wildcard -/
+theorem legacy_match_fill (ks : List Key) (m rem : Str) (k : Key) (vals : List Str)
+    (hmatch : legacyMatchOf ks m rem = some (k, vals)) (htok : (tokenize k.str).isSome = true)
+    (hmeth : '/' ∉ k.method ∧ '{' ∉ k.method ∧ ' ' ∉ k.method ∧ ' ' ∉ m)
+    (ht : k.template.head? = some '/') (htl : k.template.getLast? ≠ some '/') (hrl : rem.getLast? ≠ some '/')
+    (hvne : ∀ v ∈ vals, v ≠ []) (hnw : NoWildcard k.toks) :
+    k.method = m ∧ Fills (sparseS k.template) vals rem [] := by
+  obtain ⟨ext, path, e0, e1, e3, e4⟩ := match_sound.1 (legacyRootOf ks) _ [] (k, vals) hmatch
+  simp only [List.nil_append] at e1
+  subst e1
+  have hpath : path = k.sufs := by
+    rcases build_paths ks emptyNode (path, k) e0 with h0 | ⟨_, h2⟩
+    · simp [paths_empty] at h0
+    · exact h2
+  subst hpath
+  have hspell := e3 hvne (key_sufs_wf k)
+  have hlast : (m ++ ' ' :: rem).getLast? ≠ some '/' := by
+    cases hp : rem with
+    | nil => simp
+    | cons c cs =>
+      have e : m ++ ' ' :: (c :: cs) = (m ++ [' ']) ++ (c :: cs) := by simp
+      rw [e, getLast?_append_of_ne_nil _ (by simp), ← hp]
+      exact hrl
+  rw [stripSlashes_id hlast] at hspell
+  cases hto : tokenize k.str with
+  | none => rw [hto] at htok; simp at htok
+  | some toks =>
+    have hstr : k.str = k.method ++ ' ' :: k.template := rfl
+    have hto' := hto
+    rw [hstr] at hto'
+    obtain ⟨toks', rfl, htl'⟩ := key_toks k.method k.template hmeth.1 hmeth.2.1 ht htl toks hto'
+    have hktoks : k.toks = Tok.const (k.method ++ [' ']) :: toks' := by
+      show (tokenize k.str).getD [] = _
+      rw [hto]; rfl
+    have hsufs : k.sufs = Suf.const (k.method ++ [' ']) :: toks'.map Tok.suf := by
+      show k.toks.map Tok.suf = _
+      rw [hktoks]; rfl
+    rw [hsufs] at hspell e4
+    simp only [spell, Option.map_eq_some_iff] at hspell
+    obtain ⟨x, hx, hxe⟩ := hspell
+    have hxe' : k.method ++ ' ' :: x = m ++ ' ' :: rem := by simpa using hxe
+    obtain ⟨hmm, rfl⟩ := split_at_space k.method m x rem hmeth.2.2.1 hmeth.2.2.2 hxe'
+    have hnw' : NoWildcard toks' := by
+      intro tk htk n
+      exact hnw tk (by rw [hktoks]; simp [htk]) n
+    have hfill := ssubst_of_spell _ k.template toks' htl' hnw' vals x hx
+    have hslash : ∀ v ∈ vals, '/' ∉ v := by
+      apply varVals_slashfree (toks'.map Tok.suf) vals (by simpa [VarVals] using e4) ?_ x hx
+      intro s hs' heq
+      simp only [List.mem_map] at hs'
+      obtain ⟨tk, htk, rfl⟩ := hs'
+      cases tk with
+      | const p => simp [Tok.suf] at heq
+      | var n => simp [Tok.suf] at heq
+      | all n => exact hnw' _ htk n rfl
+    exact ⟨hmm, fun v hv => ⟨hvne v hv, hslash v hv⟩, x, hfill, by simp⟩
+
 end KinModel.Router
